@@ -35,11 +35,13 @@ pub enum Call {
     CreateProof(u16),
     /// apply prepared honest proof number sel(x, #proofs) (replica role)
     Apply(u16),
+    /// clear(i, i + 1), i = sel(x, initial length + 2), through the shared core's inner (public) mutex
+    Clear(u16),
 }
 
 impl Call {
     fn mutating(&self) -> bool {
-        matches!(self, Call::Append(_) | Call::Batch(_) | Call::Apply(_))
+        matches!(self, Call::Append(_) | Call::Batch(_) | Call::Apply(_) | Call::Clear(_))
     }
 }
 
@@ -52,6 +54,7 @@ pub enum CallOut {
     Missing(u64),
     Proof(Option<Box<PProof>>),
     Applied(bool),
+    Cleared,
     Err(String),
 }
 
@@ -236,6 +239,14 @@ async fn exec_shared(core: &SharedCore, call: &Call, init: &Initial) -> CallOut 
                 Err(e) => CallOut::Err(e.to_string()),
             }
         }
+        Call::Clear(x) => {
+            let i = sel(*x, len0 + 2);
+            let mut guard = core.0.lock().await;
+            match guard.clear(i, i + 1).await {
+                Ok(()) => CallOut::Cleared,
+                Err(e) => CallOut::Err(hypercore::replication::CoreMethodsError::from(e).to_string()),
+            }
+        }
     }
 }
 
@@ -285,6 +296,13 @@ fn exec_plain(core: &mut Hypercore, call: &Call, init: &Initial) -> CallOut {
             match block_on(core.verify_and_apply_proof(p)) {
                 Ok(b) => CallOut::Applied(b),
                 Err(e) => CallOut::Err(hypercore::replication::ReplicationMethodsError::from(e).to_string()),
+            }
+        }
+        Call::Clear(x) => {
+            let i = sel(*x, len0 + 2);
+            match block_on(core.clear(i, i + 1)) {
+                Ok(()) => CallOut::Cleared,
+                Err(e) => CallOut::Err(hypercore::replication::CoreMethodsError::from(e).to_string()),
             }
         }
     }
@@ -484,6 +502,7 @@ fn check_execution(p: &Program, init: &Initial, ex: &Execution, local: &mut Loca
     }
     // (3) model-level sanity: append outcomes are gap-free and strictly increasing in completion order
     let upto = ex.final_obs.blocks.len() as u64;
+    let cleared: Vec<u64> = p.tasks.iter().flatten().filter_map(|c| if let Call::Clear(x) = c { Some(sel(*x, init.initial_len + 2)) } else { None }).collect();
     let mut len = init.initial_len + if p.replica { 0 } else { 0 };
     if !p.replica {
         for r in &ex.recs {
@@ -505,6 +524,9 @@ fn check_execution(p: &Program, init: &Initial, ex: &Execution, local: &mut Loca
                     };
                     for (k, b) in blocks.iter().enumerate() {
                         let idx = len + k as u64;
+                        if cleared.contains(&idx) {
+                            continue;
+                        }
                         let got = ex.final_obs.blocks.iter().find(|x| x.0 == idx).map(|x| x.2.clone());
                         if got != Some(Ok(Some(b.clone()))) {
                             return Err(Failure::new("appended-block-not-readable", format!("task {}'s block for index {idx} reads back as {:?}", r.task, got.map(|g| hc::brief_get(&g)))));
@@ -613,6 +635,7 @@ fn call_strategy(replica: bool) -> BoxedStrategy<Call> {
             2 => any::<u16>().prop_map(Call::Get),
             1 => any::<u16>().prop_map(Call::Has),
             1 => Just(Call::Info),
+            1 => any::<u16>().prop_map(Call::Clear),
         ]
         .boxed()
     } else {
@@ -626,6 +649,7 @@ fn call_strategy(replica: bool) -> BoxedStrategy<Call> {
             1 => Just(Call::Info),
             1 => any::<u16>().prop_map(Call::Missing),
             2 => any::<u16>().prop_map(Call::CreateProof),
+            2 => any::<u16>().prop_map(Call::Clear),
         ]
         .boxed()
     }
